@@ -378,7 +378,9 @@ class Type3Tag(nfc.tag.Tag):
         if self.sys != 0x12FC:
             log.warning("not an ndef tag and can not be made compatible")
             return False
-        if version and version >> 4 != 1:
+        if version is None:
+            version = 0x10  # latest known mapping version
+        if version >> 4 != 1:
             log.warning("Type 3 Tag NDEF mapping major version must be 1")
             return False
 
